@@ -7,7 +7,7 @@ These implement the knapsack-based pricing subproblem and simplex tableau operat
 
 from collections.abc import Sequence
 
-__all__ = ["knapsack_pricing", "greedy_knapsack", "simplex_phase"]
+__all__ = ["knapsack_pricing", "greedy_knapsack", "simplex_phase", "drive_out_artificials"]
 
 
 def knapsack_pricing(
@@ -111,7 +111,6 @@ def simplex_phase(
     Implements Bland's rule to prevent cycling.
     Used by master LP solvers in column generation.
     """
-    n_cols = len(tab[0])
     basis_set = set(basis)
 
     for _ in range(100_000):
@@ -140,18 +139,44 @@ def simplex_phase(
         if leave == -1:
             return
 
-        # Pivot
-        piv = tab[leave][enter]
-        for j in range(n_cols):
-            tab[leave][j] /= piv
-
-        for i in range(n_rows + 1):
-            if i != leave:
-                factor = tab[i][enter]
-                if abs(factor) > eps:
-                    for j in range(n_cols):
-                        tab[i][j] -= factor * tab[leave][j]
-
         basis_set.discard(basis[leave])
-        basis[leave] = enter
+        _pivot(tab, basis, leave, enter, n_rows, eps)
         basis_set.add(enter)
+
+
+def drive_out_artificials(
+    tab: list[list[float]],
+    basis: list[int],
+    n_orig: int,
+    n_rows: int,
+    eps: float,
+) -> None:
+    """Pivot artificial variables left in the basis at level zero after phase 1 out of it.
+
+    Phase 2 never lets an artificial enter, but a basic one is not protected by the
+    ratio test when its row has a negative entry in the entering column, so it could
+    grow positive and the "optimal" point would violate that row's constraint.
+    A row with no non-zero entry among the original columns is redundant and kept.
+    """
+    for i in range(n_rows):
+        if basis[i] < n_orig:
+            continue
+        enter = max((j for j in range(n_orig) if j not in basis), key=lambda j: abs(tab[i][j]), default=-1)
+        if enter >= 0 and abs(tab[i][enter]) > eps:
+            _pivot(tab, basis, i, enter, n_rows, eps)
+
+
+def _pivot(tab: list[list[float]], basis: list[int], leave: int, enter: int, n_rows: int, eps: float) -> None:
+    n_cols = len(tab[0])
+    piv = tab[leave][enter]
+    for j in range(n_cols):
+        tab[leave][j] /= piv
+
+    for i in range(n_rows + 1):
+        if i != leave:
+            factor = tab[i][enter]
+            if abs(factor) > eps:
+                for j in range(n_cols):
+                    tab[i][j] -= factor * tab[leave][j]
+
+    basis[leave] = enter
